@@ -162,6 +162,9 @@ def jobs(tier, seed):
     items += [dict(name="static_cast " + k, fn=check_enum, kw=dict(k=k)) for k in ("k_sc_enum_from_uint", "k_sc_uint_from_enum")]
     out = [Job("C20_%d" % i, src, items[i::6]) for i in range(6)]
     out.append(Job("C20_noop_cb_fp", '#include "C20_noop.inc"\n', [dict(name="noop callback with opaque double/int/float", fn=check_cb_fp, unwind=300)], flags=["-D_GLIBCXX_EXTERN_TEMPLATE=0"]))
+    from specs import C03
+    for k in ("k_bm_cast_fnptrptr", "k_bm_scast_fnptrptr"):
+        out.append(Job("C20_BM_" + k, '#include "C03_bm.inc"\n', [dict(name="BM cast of a sandbox-resident pointer to a function pointer " + k, fn=C03.check_bm_cell, kw=dict(k=k))], native=False))
     for to in SC_TYPES:
         tags = ["%s_%s" % (to.tag, f.tag) for f in SC_TYPES]
         ssrc = src + "".join("SC(%s, %s, %s)\n" % (t, SC[t][0].cxx, SC[t][1].cxx) for t in tags)
